@@ -12,6 +12,7 @@ def build():
     reg = Registry()
     kernels.register(reg)
     parser.register(reg)
+    parser.register_format(reg)
     optimisation.register(reg)
     colors.register(reg)
     reg.mark_inline(*INLINE)
